@@ -3,7 +3,7 @@
    (P_Plex_Deriv.L, see C50_derivative_correct).  Gen_Lexicon.v is dumped from the running
    Lexicon.make_lexicon by props/C43.py on every check. *)
 From Coq Require Import ZArith List Bool String.
-From CyVerif Require Import Model.M_Plex Proof.P_Plex_Deriv Model.M_Lexicon Proof.P_Lexicon Gen.Gen_Lexicon.
+From CyVerif Require Import Model.M_Plex Proof.P_Plex_Deriv Model.M_Lexicon Proof.P_Lexicon Proof.P_LexiconDots Gen.Gen_Lexicon.
 Import ListNotations.
 Open Scope Z_scope.
 
@@ -79,6 +79,35 @@ Print Assumptions C43_str_to_number_total_refuted_limit.
 Theorem C43_int_token_never_crashes_fixed : forall lim t, int_token_outcome true lim t <> InternalCrash.
 Proof. exact int_token_never_crashes_fixed. Qed.
 Print Assumptions C43_int_token_never_crashes_fixed.
+
+(* ---- runs of dots (relative imports: `from ... import x`) ----
+   the punctuation rule dumped from the running lexicon is the transcribed one *)
+Theorem C43_text_rule_dump_is_model : gen_text_rule = text_rule.
+Proof. vm_compute. reflexivity. Qed.
+Print Assumptions C43_text_rule_dump_is_model.
+
+(* meaning of the executable longest-match function used below, for every rule and input *)
+Theorem C43_longest_match_spec : forall r w,
+  (longest r w <= List.length w)%nat /\ ((0 < longest r w)%nat -> L r (firstn (longest r w) w)) /\
+  (forall j, (longest r w < j <= List.length w)%nat -> ~ L r (firstn j w)).
+Proof. exact longest_spec. Qed.
+Print Assumptions C43_longest_match_spec.
+
+(* a run of n dots is a TEXT token exactly for n = 1 and n = 3, and never (a prefix of) a number token *)
+Theorem C43_dot_run_tokens_of_the_rules : forall n,
+  (L (rule gen_text_rule) (dots n) <-> (n = 1 \/ n = 3)%nat) /\ (forall b, ~ L (lex_number b) (dots n)).
+Proof. rewrite C43_text_rule_dump_is_model. intros n. split; [exact (text_rule_dots n) | intros b; exact (number_rules_dots b n)]. Qed.
+Print Assumptions C43_dot_run_tokens_of_the_rules.
+
+(* longest-match scanning of ANY run of n dots gives n/3 ellipsis tokens followed by n mod 3 dot tokens,
+   and the level p_from_import_statement adds up from the token lengths is n *)
+Theorem C43_dot_run_scan : forall fixed n,
+  scan_dots (S n) fixed n = dot_tokens n /\ import_level (dot_tokens n) = n /\
+  Forall (fun k => k = 1 \/ k = 3)%nat (dot_tokens n).
+Proof.
+  intros fixed n. split; [apply scan_dots_correct; auto | split; [apply dot_tokens_level | apply dot_tokens_shape]].
+Qed.
+Print Assumptions C43_dot_run_scan.
 
 Example C43_nonvacuous :
   L py_number (word "1_000.5e-3J") /\ L (lex_number false) (word "1_000.5e-3J")
